@@ -5,6 +5,7 @@
 # (keep with KEEP=1). FEATURES=c13,c14 builds only those modules. Prints "MUTANT <name> <ID> exit=<code>" per check.
 set -u
 NAME="$1"; PATCH="$2"; shift 2
+[ "$PATCH" != "-" ] && PATCH="$(readlink -f "$PATCH")"
 IDS=(); TIER=quick
 for a in "$@"; do case "$a" in quick|thorough) TIER="$a";; *) IDS+=("$a");; esac; done
 S=/tmp/vp-mut-$NAME
